@@ -4,29 +4,21 @@ package main
 import (
 	"fmt"
 	"os"
+	"runtime"
+	"time"
 
 	evalfilter "github.com/skx/evalfilter/v2"
-	"github.com/skx/evalfilter/v2/object"
 )
 
 func main() {
-	for _, noopt := range []bool{false, true} {
-		e := evalfilter.New(os.Args[1])
-		e.SetVariable("i2", &object.Integer{Value: 3})
-		var err error
-		if noopt {
-			err = e.Prepare([]byte{evalfilter.NoOptimize})
-		} else {
-			err = e.Prepare()
-		}
-		if err != nil {
-			fmt.Println("prepare:", err)
-			continue
-		}
-		if len(os.Args) > 2 {
-			e.Dump()
-		}
-		out, err := e.Execute(map[string]interface{}{})
-		fmt.Println("noopt", noopt, "->", out.Type(), out.Inspect(), err)
+	e := evalfilter.New(os.Args[1])
+	if err := e.Prepare(); err != nil {
+		fmt.Println("prepare:", err)
+		return
 	}
+	t0 := time.Now()
+	out, err := e.Execute(map[string]interface{}{})
+	var ms runtime.MemStats
+	runtime.ReadMemStats(&ms)
+	fmt.Println("->", out.Type(), out.Inspect(), err, time.Since(t0), "stack MB", ms.StackSys>>20)
 }
